@@ -240,9 +240,23 @@ def check(ctx):
               and ast.unparse(s.test) == "dups" and any(isinstance(b, ast.Raise) for b in s.body)]
     wiring = [s for s in icfg.stmts if isinstance(s, ast.For) and "_set_model" in ast.unparse(s)]
     ok = len(raises) == 3 and len(wiring) == 1 and all(icfg.dominates(r, wiring[0]) for r in raises)
+    n_dup = len(raises)
+    if not ok:
+        # the three checks may live in a helper that is called three times: in evaluation
+        # order, three "Duplicate <kind> names" rejections precede the first claim of a node
+        r_init = evaluate(repo, init)
+        dup_ticks = [r_init.raises.ticks[i_] for i_, (cd, exc, _) in enumerate(r_init.raises)
+                     if "Duplicate" in pretty(exc)]
+        kinds = {k_ for (cd, exc, _) in r_init.raises for k_ in ("node", "variable", "group")
+                 if "Duplicate" in pretty(exc) and k_ in pretty(exc)}
+        claim = [r_init.calls.ticks[i_] for i_, (t_, _, _) in enumerate(r_init.calls)
+                 if t_[0] == "call" and t_[1][0] == "a" and t_[1][2] == "_set_model"]
+        n_dup = len(dup_ticks)
+        ok = (len(dup_ticks) == 3 and kinds == {"node", "variable", "group"} and claim
+              and max(dup_ticks) < min(claim))
     ctx.ob("C15.R3", init, "duplicate node, variable and group names raise before any node is "
                            "attached to the model", ok,
-           detail=f"{len(raises)} duplicate checks, {len(wiring)} wiring loop", stmt="duplicates")
+           detail=f"{n_dup} duplicate checks, {len(wiring)} wiring loop", stmt="duplicates")
     ri = evaluate(repo, init)
     cnt = [t for t, _, _ in ri.calls if is_call(t, "collections.Counter")]
     ok = len(cnt) == 3 and all(t[2] and t[2][0][0] == "comp"
@@ -631,6 +645,10 @@ def check(ctx):
           and rg.stores[0][0][0] == "s" and rg.stores[0][0][2] == c("_model")
           and rg.stores[0][1] == ("call", ("a", SELF, "_model"), (), ())
           and rg.stores[0][0][1] == ("call", ("a", ("a", SELF, "__dict__"), "copy"), (), ()))
+    # the same as one dict display: {**self.__dict__, "_model": self._model()}
+    ok = ok or (not rg.stores and rg.ret() == ("dict", (
+        (("star2",), ("a", SELF, "__dict__")),
+        (c("_model"), ("call", ("a", SELF, "_model"), (), ())))))
     ctx.ob("C15.R6", gs, "__getstate__ copies __dict__ and replaces only the weak reference "
                          "by the referenced model", ok, stmt="getstate")
     ss = method(repo, node, "__setstate__", own=True)
